@@ -87,6 +87,10 @@ pub struct Model {
     /// renames whose entry changes are not durable yet: (src parent, src name, dst parent, dst name, inode).
     /// A rename is one namespace operation: syncing either parent makes both of its entry changes durable.
     pub pending_renames: Vec<(usize, String, usize, String, usize)>,
+    /// guard bookkeeping (not part of the POSIX semantics): paths whose file was removed while it had
+    /// unsynced data. A path-keyed pending log keeps those data ops, so only a *truncating* re-creation
+    /// of the path is safe from known finding "remove-with-unsynced-state".
+    pub stale_paths: BTreeSet<String>,
     /// number of pending (not durable) namespace/data operations — for the non-triviality rule
     pub pending_ops: u64,
 }
@@ -113,6 +117,7 @@ impl Model {
             snapshots: BTreeMap::new(),
             pending_creation: BTreeMap::new(),
             pending_renames: Vec::new(),
+            stale_paths: BTreeSet::new(),
             pending_ops: 0,
         }
     }
@@ -261,6 +266,7 @@ impl Model {
             }
         };
         if f.truncate && f.write {
+            self.stale_paths.remove(path);
             // (a truncating open counts as an unsynced data op even on a fresh file)
             self.file_data_mut(ino).clear();
             self.note_data_op(ino);
@@ -369,6 +375,9 @@ impl Model {
         match &self.inodes[i] {
             Inode::Dir { .. } => Obs::Err(EK::IsADirectory),
             Inode::File { .. } => {
+                if self.snapshots.get(&i).map(|v| !v.is_empty()).unwrap_or(false) {
+                    self.stale_paths.insert(path.to_string());
+                }
                 self.dir_entries_mut(parent).unwrap().remove(name);
                 self.pending_ops += 1;
                 Obs::Unit
@@ -697,6 +706,7 @@ impl Model {
         self.snapshots.clear();
         self.pending_creation.clear();
         self.pending_renames.clear();
+        self.stale_paths.clear();
         self.pending_ops = 0;
         dangling
     }
